@@ -83,6 +83,11 @@ class P(ServeProp):
             # the path itself, the directory index of the path, and the path with .html appended are the candidates the server tries:
             # each may be (or lie under) a link the owner placed
             cands = [comps, comps + ["index.html"], (comps[:-1] + [comps[-1] + ".html"]) if comps else comps]
+            # the vendored URL parser cuts at the first '?' before it looks for '#' (finding C02-F4): with a '#' before the '?' the path the
+            # server resolves still holds "#...", and a link of that name is the owner's link all the same
+            alt = [c for c in tgt.split("?")[0].split("/") if c not in ("", ".")] if "?" in tgt else [c for c in tgt.split("#")[0].split("/") if c not in ("", ".")]
+            if alt != comps:
+                cands += [alt, alt + ["index.html"], (alt[:-1] + [alt[-1] + ".html"]) if alt else alt]
             via_link = any(c[:len(l.split("/"))] == l.split("/") for c in cands for l in links) or \
                 (pc["kind"] == "serveL" and any(tgt.lstrip("/").startswith(l) for l in links))
             # the cwd-relative override pages: 404.html for every 404, index.html for "/"
